@@ -47,7 +47,7 @@ const (
 type c20Case struct {
 	ID      int    `json:"id"`
 	Keys    int    `json:"keys"`
-	Val     string `json:"val"`  // fixed | vary
+	Val     string `json:"val"` // fixed | vary
 	TS      uint64 `json:"table_size"`
 	R       int    `json:"replicas"`
 	Members int    `json:"members"`
@@ -201,11 +201,11 @@ type c20World struct {
 
 	// counters
 	nPut, nDel, nTTLPut, nEvicted, nCompSteps, nJanitor, nEvictPasses int64
-	bytesWritten                                       int64
-	maxRatio                                           float64
-	maxTablesSeen                                      int
-	tablesRecycledSeen                                 int64
-	traj                                               []map[string]interface{}
+	bytesWritten                                                      int64
+	maxRatio                                                          float64
+	maxTablesSeen                                                     int
+	tablesRecycledSeen                                                int64
+	traj                                                              []map[string]interface{}
 
 	stallSum atomic.Int64 // cumulated oversleep of the stall detector (ns): time this process did not get the CPU
 	stopCh   chan struct{}
